@@ -4,6 +4,7 @@
 import Asn1.Generated
 import Proofs.Fuel
 import Proofs.Sound
+import Proofs.KernelBits
 
 namespace Asn1.C08
 
@@ -44,6 +45,32 @@ theorem result_is_value (cfg : DecCfg) (ty : Ty) (bs : Bytes) (v : Val) (rest : 
   intro he
   rw [he, HasType_ne_absent] at hs
   exact Bool.noConfusion hs
+
+/-- **BIT STRING contents, at the source level: a value or the library's error, nothing else** - for arbitrary contents
+    octets the primitive branch of `BitStringPayloadDecoder.valueDecoder` with `BitString.fromOctetString` (translated from
+    /repo on this run) hands out a value or raises PyAsn1Error: no IndexError from the missing unused-bits octet, no TypeError
+    from `ord`, no negative bit length from unused bits that are not there -/
+theorem source_bit_string_contents_fail_cleanly (c : Bytes) :
+    (∃ v, GenK.bitsDecode (Kernels.bytesInts c) ((c.length : Nat) : Int) = .ok v) ∨
+      GenK.bitsDecode (Kernels.bytesInts c) ((c.length : Nat) : Int) = .error (.lib "PyAsn1Error") := by
+  rw [Kernels.bitsDecode_kernel]
+  cases bitsFromContent c with
+  | ok bs => exact Or.inl ⟨_, rfl⟩
+  | error e => exact Or.inr rfl
+
+/-- and what it hands out never has a negative length: the bit length is that of a list -/
+theorem source_bit_string_length_nonneg (c : Bytes) (v n : Int)
+    (h : GenK.bitsDecode (Kernels.bytesInts c) ((c.length : Nat) : Int) = .ok (v, n)) : 0 ≤ v ∧ 0 ≤ n := by
+  rw [Kernels.bitsDecode_kernel] at h
+  cases hb : bitsFromContent c with
+  | ok bs =>
+    rw [hb] at h
+    simp only [Kernels.liftBits, Except.ok.injEq, Prod.mk.injEq] at h
+    omega
+  | error e => rw [hb] at h; simp [Kernels.liftBits] at h
+
+example : GenK.bitsDecode [0x09, 0xFF, 0xFF] 3 = .error (.lib "PyAsn1Error") := by rfl
+example : GenK.bitsDecode [0x03] 1 = .error (.lib "PyAsn1Error") := by rfl
 
 /-- the decoders' error state for unknown tags is "raise a library error" in all three codecs
     (generated from `SingleItemDecoder.defaultErrorState`; 8 = stErrorCondition) -/
